@@ -6,3 +6,9 @@ open MtailVerif.C04
 #print axioms source_shape
 #print axioms MtailVerif.VM.Verify.step_sound
 #print axioms MtailVerif.VM.Verify.run_sound
+#print axioms MtailVerif.C04.exec_skeletons
+#print axioms MtailVerif.C04.compare_skeletons
+#print axioms MtailVerif.C04.codegenBefore_skeletons
+#print axioms MtailVerif.C04.codegenAfter_skeletons
+#print axioms MtailVerif.C04.checkerBefore_skeletons
+#print axioms MtailVerif.C04.checkerAfter_skeletons
